@@ -23,6 +23,24 @@ def jobs(tier, names=None, prop="C07"):
                 js.append(vp.Job("roundtrip.riscv.%s" % nm, "roundtrip.cpp", dd, max_paths=100000 if tier == "quick" else 1000000,
                                  timeout=240 if tier == "quick" else 700, allow_partial=True, min_completed=0, render_classes=2))
             continue
+        if n == "msp430":
+            # operands relative to the program counter (symbolic mode) are where address arithmetic happens: one job for
+            # symbolic destinations (Ad=1, dst=PC) and one for symbolic sources (As=1, src=PC), all opcodes
+            # and the six-byte instructions (two extension words: the second operand's address depends on how many
+            # bytes the first one consumed): indexed/symbolic/absolute source, and immediate source, with an Ad=1 destination
+            for nm, byte, mask, val, p2 in (("pcrel_dst", 0, 0x8f, 0x80, None), ("pcrel_src", 1, 0x0f, 0x00, (0, 0x30, 0x10)),
+                                            ("len6_idx", 0, 0xb0, 0x90, None), ("len6_imm", 0, 0xb0, 0xb0, (1, 0x0f, 0x00))):
+                dd = dict(d, PART_BYTE=byte, PART_MASK=mask, PART_VAL=val)
+                if p2: dd["PART2_BYTE"], dd["PART2_MASK"], dd["PART2_VAL"] = p2
+                if nm.startswith("len6"): dd.update(NARROW_EXT=5, NARROW_FROM=2, NARROW_UNIT=2, NARROW_LOW=0)
+                js.append(vp.Job("roundtrip.msp430.%s" % nm, "roundtrip.cpp", dd, max_paths=100000 if tier == "quick" else 1000000,
+                                 timeout=240 if tier == "quick" else 700, allow_partial=True, min_completed=0, render_classes=2))
+        if n == "msp430" and tier != "quick":
+            # breadth: every opcode nibble again with narrow extension words (0..5): no digit-class forks, many more forms
+            for part in range(16):
+                dd = dict(d, PART_BYTE=1, PART=part, NARROW_EXT=5, NARROW_FROM=2, NARROW_UNIT=2, NARROW_LOW=0)
+                js.append(vp.Job("roundtrip.msp430.narrow.p%x" % part, "roundtrip.cpp", dd, max_paths=100000 if tier == "quick" else 1000000,
+                                 timeout=240 if tier == "quick" else 700, allow_partial=True, min_completed=0, render_classes=2))
         if pb is None:
             js.append(vp.Job("roundtrip.%s" % n, "roundtrip.cpp", d, max_paths=100000 if tier == "quick" else 1000000,
                              timeout=300 if tier == "quick" else 2400, allow_partial=True, min_completed=5))
@@ -37,6 +55,7 @@ def main(tier):
     return vp.check_property("C07", tier, jobs(tier),
         "bytes (symbolic window) -> real disasm_<cpu> -> text (exact symbolic digits) -> real tokenizer, eval_expression, parse_instruction_<cpu>, add_bin (two passes as main() runs them) -> bytes -> disasm again; "
         "Z3 decides on every path that the second disassembly equals the first, that the disassembler consumes exactly what the assembler emitted, and that re-assembling is a fixpoint.",
-        ["instruction window of NBYTES symbolic bytes at a concrete address (BASE); PC-relative forms are therefore checked at that address only",
+        ["msp430 also: partitions for PC-relative destinations / sources and for the six-byte instructions (two extension words; extension words symbolic in 0..5 there so that no path is spent on digit classes), thorough: every opcode nibble again with narrow extension words",
+         "instruction window of NBYTES symbolic bytes at a concrete address (BASE); PC-relative forms are therefore checked at that address only",
          "the two disassemblies are compared character by character with digit runs (decimal, 0x hex) compared by value, so that #0 and #0x0000 are the same operand",
          "partial_allowed jobs: first max_paths paths in DFS order"])
